@@ -37,7 +37,7 @@ RULE = ('Hypothesis-generated configurations (layer tree of 2-6 leaves with name
         'as bbox list / tuple, WKT, multi-line WKT or shapely geometry (rectangle, convex, star, L, with hole, multi '
         'part, island in hole) in the request SRS or another SRS (densified so that vertex-wise and true '
         'reprojection agree to < 0.2 px).  A case (= one request) is non-trivial when the boundary of a limited_to '
-        'geometry that applies to a permitted layer crosses the response (pixels > 1 px inside and > 1 px outside both '
+        'geometry that applies to a permitted layer crosses the response (pixels > 2 px inside and > 1 px outside both '
         'exist; for feature info: the boundary crosses the query image); distinct = distinct (configuration, request).')
 ASSUMPTIONS = [
     'the callback contract of doc/auth.rst: a feature is permitted iff its value is True; names missing from "layers" are '
@@ -45,9 +45,11 @@ ASSUMPTIONS = [
     '"the geometry" = the returned geometry with straight edges in its own SRS (true curve after reprojection); '
     'geometries whose vertex-wise reprojection deviates >= 0.2 px from it (bbox lists in another SRS on large '
     'frames) are excluded and counted',
-    'pixel classes: > 1.01 px outside / inside (shapely, pixel units, pixel centres); PNG colour tolerance 8 levels, '
-    'palette colours >= 100 levels apart; for JPEG *responses* pixels within 3 px of any limit boundary are not judged '
-    'and the tolerance is 48 levels (calibrated: <= 27 at quality 90)',
+    'pixel classes (shapely distance of the pixel centre, pixel units): "outside" = more than 1.01 px outside, "well '
+    'inside" = more than 2 px inside (MapProxy masks every pixel touched by the boundary shrunk by 0.1 px with mitred '
+    'joins: up to 0.5 + 0.71 px at sharp spikes of holes - over-clipping, never a leak); feature info: 1.01 px both '
+    'ways; PNG colour tolerance 8 levels, palette colours >= 100 levels apart; for JPEG *responses* pixels within 3 px '
+    'of any limit boundary are not judged and the tolerance is 48 levels (calibrated: <= 27 at quality 90)',
     'blank = alpha 0, or the requested bgcolor on opaque output (both accepted where the statement says "transparent (or '
     'background colour)")',
     'layers requested below a layer that MapProxy may treat as opaque (direct WMS source with transparent: false) may be '
@@ -62,7 +64,8 @@ ASSUMPTIONS = [
 
 TOL_PNG = 8
 TOL_JPEG = 48
-BAND = 1.01
+BAND = 1.01         # "more than one pixel outside"
+BAND_IN = 2.0       # "well inside": the -0.1 px mask buffer is mitred (up to 0.5 px at sharp hole spikes) + touched pixels
 BAND_JPEG = 3.0
 DEV_LIMIT = 0.2
 
@@ -473,12 +476,14 @@ class Region(object):
         self.kind = kind
         self._m = {}
 
-    def masks(self, X, Y, band):
-        """(strictly inside, strictly outside) boolean arrays for pixel centres X, Y"""
+    def masks(self, X, Y, band, band_in=None):
+        """(well inside = deeper than band_in, strictly outside = farther than band) boolean arrays for pixel
+        centres X, Y"""
         shapely = _shp()
-        key = (band, X.shape)
+        band_in = band if band_in is None else band_in
+        key = (band, band_in, X.shape)
         if key not in self._m:
-            inner = self.geom.buffer(-band, 16)
+            inner = self.geom.buffer(-band_in, 16)
             outer = self.geom.buffer(band, 16)
             if inner.is_empty:
                 ins = np.zeros(X.shape, bool)
@@ -660,19 +665,24 @@ def auth_specs(draw, model, relevant, feature, island_ok=True, allow_both=True, 
     if mode != 'partial':
         return spec
     # how often a relevant name is denied: names requested explicitly rarely (the whole request is rejected then),
-    # group members more often (they are filtered out)
-    strict = draw(st.integers(0, 3)) == 0
+    # group members more often (they are filtered out).  Hypothesis' integer draws are strongly biased towards small
+    # values, so these rates are realised with a PRNG seeded from one drawn integer (still a pure function of the
+    # Hypothesis choices, hence of VERIF_SEED).
+    import random
+    rnd = random.Random(draw(st.integers(0, 2 ** 31)))
+    strict = rnd.random() < 0.2
     for name in model.order:
-        if name not in relevant and draw(st.integers(0, 2)) == 0:
+        if name not in relevant and rnd.random() < 0.3:
             continue
-        deny_n = (5 if strict else 14) if name in explicit else (3 if strict else 5)
-        if name in relevant and draw(st.integers(0, 3 * deny_n)) == 0:
+        p_deny = (0.2 if strict else 0.04) if name in explicit else (0.4 if strict else 0.2)
+        denied = name in relevant and rnd.random() < p_deny
+        if denied and rnd.random() < 0.3:
             continue  # missing entry = denied
         p = {}
         for f in ('map', 'featureinfo', 'tile'):
-            v = draw(_perm_value())
+            v = rnd.choice([True, True, True, True, True, False, None])
             if name in relevant and f == feature:
-                v = draw(st.sampled_from([False, None])) if draw(st.integers(0, deny_n)) == 0 else True
+                v = rnd.choice([False, None]) if denied else True
             if v is not None:
                 p[f] = v
         if name in relevant and draw(st.integers(0, 1)) == 0:
@@ -685,6 +695,14 @@ def auth_specs(draw, model, relevant, feature, island_ok=True, allow_both=True, 
             # open finding C10/tile/global-limit-ignored-when-layer-limited
             spec['suppressed'] = 'global+layer limited_to on a tile layer'
     return spec
+
+
+def near_specs():
+    """where to click: None = anywhere (i, j); else at fraction t along the boundary of the first limit geometry that
+    applies, moved by `off` pixels in direction `ang` (0.3-6 px: inside the band, just beyond it, clearly beyond)"""
+    return st.one_of(st.none(), st.fixed_dictionaries({
+        't': st.floats(0, 1), 'ang': st.floats(0, 6.28),
+        'off': st.sampled_from([0.3, 1.2, 1.6, 2.5, 4.0, 6.0])}))
 
 
 @st.composite
@@ -733,6 +751,7 @@ def requests_(draw, model, open_sigs):
         else:
             req['i'] = draw(st.floats(0, 0.999))
             req['j'] = draw(st.floats(0, 0.999))
+            req['near'] = draw(near_specs())
             req['extra_layers'] = draw(st.booleans())
             req['auth'] = draw(auth_specs(model, resolved, 'featureinfo', island_ok, explicit=names))
     else:
@@ -761,6 +780,7 @@ def requests_(draw, model, open_sigs):
             req['rest'] = draw(st.booleans())
             req['i'] = draw(st.integers(0, 255))
             req['j'] = draw(st.integers(0, 255))
+            req['near'] = draw(near_specs())
             req['auth'] = draw(auth_specs(model, {name}, 'featureinfo', island_ok, allow_both, explicit=[name]))
     return req
 
@@ -944,7 +964,7 @@ class Harness(object):
             service = 'wms.map' if kind == 'map' else 'wms.featureinfo'
             req['_layers_param'] = list(req['layers'])
             if kind == 'fi':
-                req['_pos'] = (int(req['i'] * frame.size[0]), int(req['j'] * frame.size[1]))
+                req['_pos'] = self.click_position(req, frame, (int(req['i'] * frame.size[0]), int(req['j'] * frame.size[1])))
                 if req.get('extra_layers'):
                     extra = [n for n in m.order if n not in req['layers']]
                     req['_layers_param'] = list(req['layers']) + extra[:1]
@@ -979,6 +999,7 @@ class Harness(object):
                 classes += ['svc:' + svc, 'grid:' + grid, 'cache:' + fmt + ('/stored' if s['storage'] else '')]
             else:
                 service = 'wmts.featureinfo'
+                req['i'], req['j'] = self.click_position(req, frame, (req['i'], req['j']))
                 if req['rest']:
                     url = '/wmts/%s/%s/%02d/%d/%d/%d/%d.txt' % (req['layer'], grid, z, x, y, req['i'], req['j'])
                 else:
@@ -1316,6 +1337,28 @@ class Harness(object):
                                    'has its own limited_to]', case)
         return done(v, nt)
 
+    def click_position(self, req, frame, default):
+        near = req.get('near')
+        auth = req['auth']
+        if not near or auth['mode'] != 'partial':
+            return default
+        lims = [auth['layers'][n]['limit'] for n in sorted(auth['layers']) if auth['layers'][n].get('limit')]
+        if auth.get('global'):
+            lims.append(auth['global'])
+        if not lims:
+            return default
+        region = concretise_limit(lims[0], frame)['region']
+        b = region.geom.boundary
+        if b.is_empty:
+            return default
+        p = b.interpolate(near['t'], normalized=True)
+        x = p.x + near['off'] * math.cos(near['ang']) - 0.5
+        y = p.y + near['off'] * math.sin(near['ang']) - 0.5
+        w, h = frame.size
+        if not (math.isfinite(x) and math.isfinite(y)):
+            return default
+        return (min(max(int(round(x)), 0), w - 1), min(max(int(round(y)), 0), h - 1))
+
     # -- pixels ------------------------------------------------------------------------------------
 
     def judge_pixels(self, arr, frame, items, denied_uids, is_jpeg, svc, case, classes, deviating, both=False,
@@ -1325,6 +1368,7 @@ class Harness(object):
         w, h = frame.size
         X, Y = np.meshgrid(np.arange(w) + 0.5, np.arange(h) + 0.5)
         band = BAND_JPEG if is_jpeg else BAND
+        band_in = BAND_JPEG if is_jpeg else BAND_IN
         tol = TOL_JPEG if is_jpeg else (tol or TOL_PNG)
         all_regions = []
         for it in items:
@@ -1346,7 +1390,7 @@ class Harness(object):
             ins = np.ones((h, w), bool)
             outs = np.zeros((h, w), bool)
             for r in it['regions']:
-                i_, o_ = r.masks(X, Y, band)
+                i_, o_ = r.masks(X, Y, band, band_in)
                 ins &= i_
                 outs |= o_
                 if i_.any() and o_.any():
@@ -1364,7 +1408,7 @@ class Harness(object):
         if is_jpeg:
             # near any limit boundary a JPEG response is not judged at all
             for r in all_regions:
-                i_, o_ = r.masks(X, Y, band)
+                i_, o_ = r.masks(X, Y, band, band_in)
                 expected[~(i_ | o_)] = -3
         judged = expected != -3
         blank_obs = (obs == BLANK) | (obs == m.bg_idx)
@@ -1396,7 +1440,7 @@ class Harness(object):
             sig = svc + '/outside-limit-visible'
             extra = ''
             if both and layer_region is not None:
-                li, lo = layer_region['region'].masks(X, Y, band)
+                li, lo = layer_region['region'].masks(X, Y, band, band_in)
                 if not (leak & lo).any():
                     sig = F_GLOBAL_IGNORED[4:]
                     extra = ' [all leaked pixels are inside the layer limited_to: the global limited_to is ignored]'
@@ -1440,7 +1484,7 @@ def check_case(case, stats):
 
 def search_shard(shard, nshards, seed, tier):
     st_ = core.Stats()
-    total = 300 if tier == 'quick' else 6000
+    total = 800 if tier == 'quick' else 48000
     n = max(1, total // nshards)
     core.hyp_search(cases(), check_case, st_, max_examples=n, seed=seed, shrink=False)
     return st_
